@@ -264,6 +264,26 @@ Theorem C01_week_files_same_label : forall l e1 e2,
 Proof. exact week_files_same_label. Qed.
 Print Assumptions C01_week_files_same_label.
 
+(* ---- The lookup tables answer for the PAIR (program, item): a counter,
+   stack or version is found for a program iff an entry of a program configured
+   under exactly that name lists it - never because the concatenation of another
+   program's path and another item's name happens to read the same. *)
+Theorem C01_has_counter_meaning : forall u prog k,
+  has_counter (new_config u) prog k = true <-> exists r, counter_entry u prog k r.
+Proof. exact has_counter_spec. Qed.
+Print Assumptions C01_has_counter_meaning.
+
+Theorem C01_has_stack_meaning : forall u prog name,
+  has_stack (new_config u) prog name = true <-> exists r, stack_entry u prog name r.
+Proof. exact has_stack_spec. Qed.
+Print Assumptions C01_has_stack_meaning.
+
+Theorem C01_has_version_meaning : forall u prog v,
+  has_version (new_config u) prog v = true <->
+  exists p, In p (uc_programs u) /\ pc_name p = prog /\ In v (pc_versions p).
+Proof. exact has_version_spec. Qed.
+Print Assumptions C01_has_version_meaning.
+
 (* ---- Programs of one weekly report are filtered independently of each
    other and of their order. *)
 Theorem C01_upload_program_independent : forall c x before p after,
